@@ -140,15 +140,25 @@ const Type* TypeChecker::unqualifiedAndResolved(const Type* ty)
     } while (true);
 }
 
-bool TypeChecker::isAssignableType(const Type* ty, const SyntaxNode* node)
+bool TypeChecker::isAssignableType(const Type* ty, const SyntaxNode* node, bool isMember)
 {
+    // A modifiable lvalue (6.3.2.1-1): not of array type, not const-qualified
+    // and, if a structure or union, without a const-qualified member (or
+    // element of a member), recursively.
     switch (ty->kind()) {
-        case TypeKind::Qualified:
-            diagReporter_.CannotAssignToExpressionOfConstQualifiedType(node->lastToken());
-            return false;
+        case TypeKind::Qualified: {
+            auto qualTy = ty->asQualifiedType();
+            if (qualTy->qualifiers().hasConst()) {
+                diagReporter_.CannotAssignToExpressionOfConstQualifiedType(node->lastToken());
+                return false;
+            }
+            return isAssignableType(qualTy->unqualifiedType(), node, isMember);
+        }
         case TypeKind::TypedefName:
-            return isAssignableType(resolvedSynonymOf(ty), node);
+            return isAssignableType(resolvedSynonymOf(ty), node, isMember);
         case TypeKind::Array:
+            if (isMember)
+                return isAssignableType(ty->asArrayType()->elementType(), node, true);
             diagReporter_.CannotAssignToExpressionOfArrayType(node->lastToken());
             return false;
         case TypeKind::Tag: {
@@ -158,7 +168,7 @@ bool TypeChecker::isAssignableType(const Type* ty, const SyntaxNode* node)
                 return false;
             for (const auto& membDecl : tagTyDecl->members()) {
                 auto membTy = membDecl->type();
-                if (!isAssignableType(membTy, node))
+                if (!isAssignableType(membTy, node, true))
                     return false;
             }
             return true;
